@@ -1,6 +1,7 @@
 package crypto
 
 import (
+	"encoding/binary"
 	"slices"
 
 	"github.com/relab/hotstuff"
@@ -32,7 +33,11 @@ func NewMultiSorted[T Signature](sigs ...T) Multi[T] {
 func (sig Multi[T]) ToBytes() []byte {
 	var b []byte
 	for _, signature := range sig {
-		b = append(b, signature.ToBytes()...)
+		// length-prefix each signature: the encodings are not self-delimiting (ECDSA signatures
+		// vary in length), so plain concatenation would not determine the individual signatures.
+		s := signature.ToBytes()
+		b = binary.LittleEndian.AppendUint32(b, uint32(len(s)))
+		b = append(b, s...)
 	}
 	return b
 }
